@@ -53,11 +53,19 @@ def run_verus(path, rlimit=30, timeout=600, multiple_errors=20, extra=(), seed=N
     if seed:
         cmd += ["--smt-option", f"smt.random_seed={seed}"]
     t0 = time.time()
+    # own process group, so that a timeout also kills the z3 children
+    import signal
+    proc = subprocess.Popen(cmd, cwd=os.path.dirname(path), stdout=subprocess.PIPE, stderr=subprocess.PIPE, text=True, start_new_session=True)
     try:
-        p = subprocess.run(cmd, cwd=os.path.dirname(path), capture_output=True, text=True, timeout=timeout)
-        out, err, rc = p.stdout, p.stderr, p.returncode
-    except subprocess.TimeoutExpired as e:
-        out, err, rc = (e.stdout or b"").decode() if isinstance(e.stdout, bytes) else (e.stdout or ""), "TIMEOUT", -9
+        out, err = proc.communicate(timeout=timeout)
+        rc = proc.returncode
+    except subprocess.TimeoutExpired:
+        try:
+            os.killpg(proc.pid, signal.SIGKILL)
+        except Exception:
+            pass
+        proc.communicate()
+        out, err, rc = "", "TIMEOUT", -9
     return " ".join(cmd), out, err, rc, time.time() - t0
 
 
